@@ -82,6 +82,13 @@ def run_case(case, res):
                             res.count("base_class_loads")
                             if sergen.shape(tb) != src:
                                 bad.append(f"[{label}] Tree.load() with the FileSystemTree mappers differs: {sergen.shape(tb)} vs {src}")
+                        if comp is False:
+                            # the caller opens the file (as UTF-8 text, the documented encoding of the format) and hands the stream on
+                            with open(pth, encoding="utf8") as _fp:
+                                t2s = load_cls.load(_fp, **load_kw)
+                            res.count("loads_from_a_stream_the_caller_opened")
+                            if sergen.shape(t2s) != src:
+                                bad.append(f"[{label}] loading the saved file through a text stream opened by the caller differs")
                         if comp is False and load_cls.__name__ in ("Tree", "MyTree", "FileSystemTree"):
                             # a file that was written uncompressed can be read with the detection switched off
                             t2c = load_cls.load(pth, auto_uncompress=False, **load_kw)
